@@ -106,7 +106,18 @@ class Ctx:
 
     def fail_input(self, obligation, input, cls="", message=""):
         """a concrete failing input found natively on the real code"""
-        self.failures.append(dict(obligation=obligation, input=input, cls=cls, message=str(message)[:1500]))
+        rec = dict(obligation=obligation, input=input, cls=cls, message=str(message)[:1500])
+        self.failures.append(rec)
+        # handed to the parent process at once: a failing input found before the code under test takes the interpreter down
+        # (a segmentation fault inside a native library) is not lost with the unit process
+        if _STREAM.get("conn") is not None:
+            try:
+                _STREAM["conn"].send(("failure", rec))
+            except Exception:
+                pass
+
+
+_STREAM = {"conn": None}
 
 
 def _tree_files():
@@ -219,6 +230,12 @@ def _child(conn, args):
     except Exception:
         pass
     try:
+        import faulthandler
+        faulthandler.enable()          # a crash of the interpreter leaves its python stack in the check's output
+    except Exception:
+        pass
+    _STREAM["conn"] = conn
+    try:
         res = _run_unit(args)
     except BaseException:
         prop, idx, tier, seed = args
@@ -233,15 +250,15 @@ def _child(conn, args):
     conn.close()
 
 
-def _killed_result(prop, idx, why):
+def _killed_result(prop, idx, why, failures=None):
     spec = UNITS[prop][idx]
     files = {}
     for t in spec.targets:
         rel = t.split(":")[0]
         files.setdefault(rel, file_digest(os.path.join(REPO, rel)))
     return dict(unit=spec.name, mode=spec.mode, bounded=spec.bounded, note=spec.note, crashed=why, obligations=[], trusted=[],
-                assumptions=[], failures=[], evaluations=0, distinct=0, samples=[], rule="", paths=0, solver_s=0.0, functions=[],
-                files=files, wall_s=0.0, notes=[], exhaustive=False, killed=True)
+                assumptions=[], failures=list(failures or []), evaluations=len(failures or []), distinct=len(failures or []), samples=[], rule="",
+                paths=0, solver_s=0.0, functions=[], files=files, wall_s=0.0, notes=[], exhaustive=False, killed=True)
 
 
 def run_units(prop, tier, seed, only=None, jobs=None):
@@ -255,6 +272,7 @@ def run_units(prop, tier, seed, only=None, jobs=None):
         return [_run_unit(a) for a in todo]
     ctxm = multiprocessing.get_context("fork")
     results = {}
+    early = {}            # unit index -> failing inputs received before the unit ended
     pending = list(todo)
     running = []          # (args, process, conn, t0, limit)
     scale = 1.0 if tier == "quick" else 10.0
@@ -269,20 +287,32 @@ def run_units(prop, tier, seed, only=None, jobs=None):
         time.sleep(0.05)
         still = []
         for a, pr, pc, t0, lim in running:
-            if pc.poll():
+            done = False
+            while not done and pc.poll():
                 try:
-                    results[a[1]] = pc.recv()
+                    msg = pc.recv()
                 except EOFError:
-                    results[a[1]] = _killed_result(a[0], a[1], "unit process died without a result (killed by the memory limit?)")
+                    pr.join(5)
+                    results[a[1]] = _killed_result(a[0], a[1], "unit process died without a result (exit code %s: a negative value is a signal, "
+                                                   "-11 a segmentation fault; otherwise the memory limit)" % pr.exitcode, early.get(a[1]))
+                    done = True
+                    break
+                if isinstance(msg, tuple) and msg and msg[0] == "failure":
+                    early.setdefault(a[1], []).append(msg[1])        # a failing input streamed before the end of the unit
+                    continue
+                results[a[1]] = msg
                 pr.join(5)
+                done = True
+            if done:
                 continue
             if not pr.is_alive():
-                results[a[1]] = _killed_result(a[0], a[1], "unit process exited with code %s without a result (memory limit?)" % pr.exitcode)
+                results[a[1]] = _killed_result(a[0], a[1], "unit process exited with code %s without a result (memory limit?)" % pr.exitcode,
+                                               early.get(a[1]))
                 continue
             if time.time() - t0 > lim:
                 pr.kill()
                 pr.join(5)
-                results[a[1]] = _killed_result(a[0], a[1], "unit exceeded its time limit of %d s and was stopped" % lim)
+                results[a[1]] = _killed_result(a[0], a[1], "unit exceeded its time limit of %d s and was stopped" % lim, early.get(a[1]))
                 continue
             still.append((a, pr, pc, t0, lim))
         running = still
